@@ -177,6 +177,42 @@ def run_c10(rep):
     compile_tie(rep, "c10-compile", dict(join=0.95, block_jumps=0.5, conds=0.7, one_time=0.5, hooks=0.3))
 
 
+def c08_ring_probes(rep):
+    """long chains and long cycles of jumps reached while rendering (no short random story has a 100-passage ring): an
+    acyclic corridor of N passages shows all N texts in order; a ring of N passages answers RuntimeError within the time
+    limit, and the engine is usable afterwards"""
+    n = 0
+    for size in sizes(rep, (3, 33, 45, 100), (2, 3, 31, 32, 33, 34, 45, 64, 100, 250)):
+        for cyclic in (False, True):
+            ps = [":: Start\nHi\n+ [go] -> R0\n+ [stay] -> Start\n"]
+            for i in range(size):
+                last = i == size - 1
+                nxt = f"@if True:\n  -> R{(i + 1) % size}\n@endif\n" if (cyclic or not last) else "+ [home] -> Start\n"
+                ps.append(f":: R{i}\nroom {i}\n{nxt}")
+            src = "\n".join(ps)
+            ops = [{"op": "choose", "i": 0}, {"op": "current"}, {"op": "choose", "i": 1 if cyclic else 0}]
+            c = corr_play.run_fixed(src, ops, case_id=f"c08-ring-{size}-{cyclic}")
+            n += 1
+            if "compile_error" in c or c["real"].get("status") != "ok":
+                rep.violations.append({"cls": None, "family": "c08-ring", "what": "probe does not run: " + str(c.get("compile_error") or c["real"])[:200], "source": src, "ops": ops})
+                continue
+            r0 = c["real"]["steps"][0]["resp"]
+            if cyclic:
+                if r0.get("raise") not in ("RuntimeError", "RecursionError"):
+                    rep.violations.append({"cls": None, "family": "c08-ring", "oracle": "cycle -> RuntimeError",
+                                           "what": f"a ring of {size} passages linked by jumps answered {str(r0)[:120]} instead of a RuntimeError", "source": src, "ops": ops, "variant": "main"})
+                r2 = c["real"]["steps"][2]["resp"]
+                if (r2.get("out") or {}).get("pid") != "Start":
+                    rep.violations.append({"cls": None, "family": "c08-ring", "what": f"after the cycle error the engine is not usable: {str(r2)[:120]}", "source": src, "ops": ops, "variant": "main"})
+            else:
+                exp = "\n\n".join(f"room {i}\n" for i in range(size))
+                got = (r0.get("out") or {}).get("content")
+                if got is None or [l for l in got.split("\n") if l] != [l for l in exp.split("\n") if l]:
+                    rep.violations.append({"cls": None, "family": "c08-ring", "what": f"a corridor of {size} passages does not show the {size} texts in order: {str(r0)[:160]}", "source": src, "ops": ops, "variant": "main"})
+    rep.coverage.setdefault("families", {})["c08-ring"] = {"cases": n}
+    rep.coverage["evaluations"] = rep.coverage.get("evaluations", 0) + n
+
+
 def run_c08(rep):
     n, ops = sizes(rep, (400, 14), (6000, 40))
     # (the chain's text must come with the FINAL passage's choices: the C02 oracle judges the offered list, join sections included)
@@ -185,6 +221,7 @@ def run_c08(rep):
                          weights=dict(choose=65, goto=12, undo=5, redo=3, read=8, bad=3),
                          oracle_names=["oracle_c08", "oracle_c02"], known_classes=known_classes("C08") | known_classes("C02"), label="c08")
     compile_tie(rep, "c08-compile", dict(top_jumps=0.6, block_jumps=0.7, loops=0.5, conds=0.8, params=0.3))
+    c08_ring_probes(rep)
 
 
 def run_c15(rep):
@@ -197,6 +234,10 @@ def run_c15(rep):
                          weights=dict(choose=60, undo=15, redo=6, goto=6, read=6, bad=3),
                          oracle_names=["oracle_c04", "oracle_c07"], known_classes=known_classes("C15") | known_classes("C07"),
                          label="c15-play")
+    # a failing choice among choices that change standard-library objects (and attributes the story put on them): one undo
+    # restores everything a story can observe
+    import fam_saveload
+    fam_saveload.undo_sessions(rep, sizes(rep, 40, 500))
 
 
 def run_c05(rep):
